@@ -1,7 +1,7 @@
 (* C04 — Paginated listing visits every key exactly once and terminates.
    Model: Model/Mem.v scan / skip_group, Base/SortedMap.v sm_after, Model/MemWalk.v page / walk
    (a client that follows the continuation the server returns). *)
-From GF Require Import Base.Bytes Base.SortedMap Model.Prefix Model.Mem Model.MemWalk
+From GF Require Import Base.Bytes Base.Lit Base.SortedMap Model.Prefix Model.Mem Model.MemWalk
   Proofs.SortedMapFacts Proofs.WalkProofs Proofs.ListDomain.
 Open Scope Z_scope.
 
@@ -45,11 +45,35 @@ Theorem C04_any_start_after : forall pre delim mk objs marker k body,
 Proof. exact page_after_marker. Qed.
 Print Assumptions C04_any_start_after.
 
-(* the empty key is excluded for a reason: with it the walk would never terminate (it is not
-   reachable through the HTTP API, which routes an empty object name to the bucket handlers) *)
+(* the empty key is excluded for a reason: with it the walk would never terminate.  The HTTP API
+   routes an empty object name to the bucket handlers, and since fix 22ff0db ("POST /bucket?uploads"
+   and browser-form uploads with an empty key are refused) no request can create it any more; before
+   that fix it was reachable through a multipart upload, which the C09 check now guards. *)
 Theorem C04_empty_key_refuted :
   exists objs, sorted objs /\ WalkProofs.data_some objs /\ forall n, walk n [] None 1 objs [] = None.
 Proof.
   exists cex_objs. destruct walk_empty_key_refuted as (H1 & H2 & _ & _ & _ & H6). auto.
 Qed.
 Print Assumptions C04_empty_key_refuted.
+
+(* keys that begin with the delimiter are excluded ([key_ok]) for a reason as well: Prefix.Match
+   strips leading delimiters from a key, so "/a/x" and "a/y" fall under the same common prefix
+   "a/" although "0" sorts between them; an unpaginated listing reports it once, a walk with
+   max-keys 1 reports it on two pages.  Such keys are reachable (PUT /bucket//a/x on the
+   key-value backends): known finding D32. *)
+Definition c04_lead_obj (k : list N) : list N * obj :=
+  (k, {| o_data := Some {| vd_vid := 1%N; vd_null := true; vd_marker := false; vd_body := []; vd_meta := [] |}; o_vers := [] |}).
+Definition c04_lead_objs := [c04_lead_obj (B "/a/x"); c04_lead_obj (B "0"); c04_lead_obj (B "a/y")].
+Theorem C04_leading_delimiter_key_refuted :
+  exists objs pages,
+    sorted objs /\ WalkProofs.data_some objs /\ ~ In [] (map fst objs) /\
+    walk (S (length objs)) [] (Some 47%N) 1 objs [] = Some pages /\
+    flat_map lr_prefixes pages = [B "a/"; B "a/"] /\
+    lr_prefixes (unpaged [] (Some 47%N) objs) = [B "a/"].
+Proof.
+  exists c04_lead_objs. eexists.
+  split; [cbn; auto|]. split; [repeat constructor; discriminate|].
+  split; [cbn; intros [H|[H|[H|[]]]]; discriminate H|].
+  split; [vm_compute; reflexivity|]. split; vm_compute; reflexivity.
+Qed.
+Print Assumptions C04_leading_delimiter_key_refuted.
